@@ -1858,10 +1858,24 @@ func vfE2Judge(h *vfE2Hist, linchk string, scratch string) *vfE2Verdict {
 				continue
 			}
 			end := inf
+			definite := true
 			for _, u := range unl[g.Lid] {
-				if u.Call > t.Ts && u.Call < end {
+				if ut := u.terminal(); ut != nil && ut.Ts < g.Call {
+					continue // answered before this lock was sent: it cannot have touched this hold
+				}
+				if u.Call <= t.Ts {
+					// in flight together with the lock (a client that gave up waiting for the reply went on):
+					// the server may have executed it after the lock, so the hold is not definite at any time
+					definite = false
+					break
+				}
+				if u.Call < end {
 					end = u.Call
 				}
+			}
+			if !definite {
+				v.Cnt["holds_not_definite_(unlock_in_flight_with_the_lock)"]++
+				continue
 			}
 			perLid[g.Lid] = append(perLid[g.Lid], iv{t.Ts, end, g})
 		}
@@ -1944,7 +1958,7 @@ func vfE2Judge(h *vfE2Hist, linchk string, scratch string) *vfE2Verdict {
 					if ot := o.terminal(); ot != nil {
 						oret = ot.Ts
 					}
-					if oret > gts && o.Call < ut.Ts {
+					if oret > g.Call && o.Call < ut.Ts { // o may have been executed after the grant (whose request was sent at g.Call)
 						clear = false
 					}
 				}
